@@ -401,7 +401,9 @@ def shape_set(tier):
     if tier != 'quick':
         base += [Shape(1, (2, 1), 1, ((True, 20),)), Shape(1, (0, 2), 0, ()), Shape(1, (2, 2), 0, ()),
                  Shape(0, (1,), 2, ((True, 40), (True, 20))), Shape(1, (1,), 'k', ((True, 20),)),
-                 Shape(1, (1, 1), 2, ((True, 20), (False, 20)), fp=True)]
+                 Shape(1, (1, 1), 2, ((True, 20), (False, 20)), fp=True),
+                 Shape(1, (3,), 0, ()), Shape(1, (1, 1, 1), 0, ()), Shape(1, (), 3, ()),
+                 Shape(1, (), 0, ((True, 20), (True, 20), (True, 20))), Shape(1, (2, 1), 2, ((True, 20), (True, 40)))]
     return base
 
 
